@@ -98,7 +98,10 @@ class MemMapWorld(World):
         return {"maps": maps}
 
     def _name(self, rng):
-        return [rng.choice(NAME_PARTS) for _ in range(rng.range(1, 3))]
+        n = [rng.choice(NAME_PARTS) for _ in range(rng.range(1, 3))]
+        if rng.chance(0.35):
+            n[0] = rng.choice([0, "0"])       # roots that tie under str()
+        return n
 
     def gen_ops(self, rng, config, prop):
         ops = []
@@ -143,7 +146,7 @@ class MemMapWorld(World):
             else:
                 w = rng.below(nm)
                 op = {"k": "win", "m": m, "w": w,
-                      "name": None if rng.chance(0.35) else self._name(rng),
+                      "name": None if rng.chance(0.55 if prop == "C18" else 0.35) else self._name(rng),
                       "addr": None if rng.chance(0.6) else rng.range(0, 1 << aw),
                       "sparse": rng.choice([None, None, False, True])}
                 if rng.chance(0.04):
